@@ -564,7 +564,8 @@ func (p *Parser) tryParseSelectAs() ast.SelectAs {
 			As:     pos,
 			Struct: structPos,
 		}
-	case p.Token.IsKeywordLike("VALUE"):
+	case p.Token.IsKeywordLike("VALUE") && p.lookaheadToken().Kind != ".":
+		// "AS value.T" names a type whose path starts with value.
 		valuePos := p.expectKeywordLike("VALUE").Pos
 		return &ast.AsValue{
 			As:    pos,
@@ -1125,6 +1126,17 @@ func (p *Parser) parseTVFArg() ast.TVFArg {
 	default:
 		return p.parseExprArg()
 	}
+}
+
+// lookaheadToken returns the token that follows the current one.
+func (p *Parser) lookaheadToken() token.Token {
+	lexer := p.Lexer.Clone()
+	defer func() {
+		p.Lexer = lexer
+	}()
+
+	p.nextToken()
+	return p.Token
 }
 
 // lookaheadKeywordLikeArg reports whether the current token is the pseudo keyword s followed by an identifier,
